@@ -101,6 +101,7 @@ type closure struct {
 }
 
 type Exec struct {
+	softEndPos token.Pos // end of the function body (scope of its top-level locals) while softNames is on
 	softNames, softMiss bool // evaluating an "ensures internal" clause: an unresolved local only skips the clause at this exit
 	madeVars      map[types.Object]*types.Var // hidden 'allocated here' flags of local slice variables
 	visitedVars   []*types.Var // ghost visited sets of the enclosing range-over-map loops
